@@ -195,7 +195,7 @@ class GuardedIterator:
                         stacklevel=2,
                     )
             elif 100 <= status_code < 200 or status_code == 204:
-                if content_length != 0:
+                if content_length is not None and content_length != 0:
                     warn(
                         f"{status_code} responses must have an empty content length.",
                         HTTPWarning,
